@@ -369,6 +369,7 @@ func init() {
 		}
 		mode := e.firstOf(done, conds, []string{"coord", "wait"})
 		aborted, running := false, false
+		nReady := 0
 		stop := e.stopOn(done)
 	loop:
 		for _, ev := range items(a[6], ";") {
@@ -410,6 +411,9 @@ func init() {
 			}
 			switch r := cm.deliver(sid, typ, from, payload, ch); r {
 			case "ok":
+				if kind == 'r' {
+					nReady++
+				}
 			case "done":
 				if kind == 'r' {
 					running = true
@@ -486,7 +490,106 @@ func init() {
 		if m == "" {
 			m = mode
 		}
-		return "mode=" + m + ";sel=" + sel + ";r=" + joinOr(rs, ",") + ";start=" + start + ";run=" + joinOr(runs, "/") + ";res=" + c11ErrClass(rerr) + note
+		return "mode=" + m + ";sel=" + sel + ";r=" + joinOr(rs, ",") + ";n=" + itoa(nReady) + ";start=" + start + ";run=" + joinOr(runs, "/") + ";res=" + c11ErrClass(rerr) + note
+	}
+	// coord1 <kind> <self> <t> <sid> <holders> <events> — real Execute on the STATIC coordinator (first attempt): ready
+	//   messages r<from> are read by initiate, fail messages f<from> by the watcher Execute starts next to it (which was
+	//   given this relayer itself as coordinator). => n=<ready messages taken>;start=<subset|none>;run=<subset|->;res=<…>
+	ops["C07.coord1"] = func(a []string) string {
+		self := c07Peer(a[1])
+		t, _ := strconv.Atoi(a[2])
+		sid := c07Sid(a[3])
+		holders := c07PeerList(a[4])
+		if ord := c07Order(holders, sid); len(ord) == 0 || ord[0] != self {
+			return "notcoord"
+		}
+		cm := c07NewComm()
+		h := c07NewHost(self, c07Peers)
+		co := c07Coordinator(h, cm)
+		proc := &c07Proc{real: c07Signing(a[0], sid, h, cm, holders, t), retryable: true, started: make(chan struct{}, 4)}
+		ctx, cancel := context.WithCancel(context.Background())
+		defer cancel()
+		done := make(chan struct{})
+		var rerr error
+		go func() {
+			defer close(done)
+			rerr = c07Guard(func() error { return co.Execute(ctx, []tss.TssProcess{proc}, make(chan interface{}, 4)) })
+		}()
+		stop := make(chan struct{})
+		go func() {
+			select {
+			case <-proc.started:
+			case <-done:
+			}
+			close(stop)
+		}()
+		n, running, aborted, note := 0, false, false, ""
+	loop:
+		for _, ev := range items(a[5], ";") {
+			from := c07Peer(ev[1:])
+			switch ev[0] {
+			case 'r':
+				if running {
+					continue
+				}
+				switch r := cm.deliver(sid, comm.TssReadyMsg, from, []byte{}, stop); r {
+				case "ok":
+					n++
+				case "done":
+					running = true
+				default:
+					note += ";" + r
+					break loop
+				}
+			case 'f':
+				switch r := cm.deliver(sid, comm.TssFailMsg, from, []byte{}, done); r {
+				case "ok":
+					if from == self {
+						aborted = true
+						break loop
+					}
+				case "done":
+					break loop
+				default:
+					note += ";" + r
+					break loop
+				}
+			default:
+				panic("bad event " + ev)
+			}
+		}
+		if aborted && !c07WaitDone(done) {
+			note += ";noabort"
+			aborted = false
+		}
+		if !aborted {
+			cancel()
+			if !c07WaitDone(done) {
+				return "hang"
+			}
+		}
+		start := "none"
+		for _, b := range cm.castsOf(comm.TssStartMsg) {
+			m, err := message.UnmarshalStartMessage(b.payload)
+			x := "badstart"
+			if err == nil {
+				x = c07ParamPeers(m.Params)
+			}
+			if start == "none" {
+				start = x
+			} else {
+				start += "+" + x
+			}
+		}
+		runs := []string{}
+		for _, r := range proc.runList() {
+			x := c07ParamPeers(r.params)
+			if !r.coordinator {
+				x = "notcoord:" + x
+			}
+			runs = append(runs, x)
+		}
+		return "n=" + itoa(n) + ";start=" + start + ";run=" + joinOr(runs, "/") + ";res=" + c07ErrClass(rerr) + note
 	}
 	// wait <self> <sid> <peers> <events>  — real Execute on a relayer that is NOT the coordinator.
 	//   events `;`-separated: i<from> initiate, s<from>:<tag> start carrying params tag, x<from> start with a malformed
@@ -608,7 +711,7 @@ func init() {
 	}
 	ops["C07.wait"] = waitBody
 	ops["C07.net"] = func(a []string) string { return waitBody(append(append([]string{}, a...), "net")) }
-	for _, k := range []string{"C07.initiate", "C07.wait", "C07.retry2", "C07.net"} {
+	for _, k := range []string{"C07.initiate", "C07.wait", "C07.retry2", "C07.net", "C07.coord1"} {
 		ops[k] = c07Escalating(ops[k])
 	}
 	gens["C07"] = genC07
@@ -884,6 +987,43 @@ func genC07(g *G) {
 	}
 	genC07Retry(g)
 	genC07Net(g)
+	genC07Coord(g)
+}
+
+// genC07Coord: the static coordinator's first attempt through the real Execute, ready and fail messages interleaved —
+// fail messages from committee members and outsiders (ignored) and one authenticated as the coordinator itself.
+func genC07Coord(g *G) {
+	sid := c07Sids[0]
+	ord := c07Order(c07PeerList("0,1,2,3"), sid)
+	self, a, b, c := c07Tok(ord[0]), c07Tok(ord[1]), c07Tok(ord[2]), c07Tok(ord[3])
+	alpha := []string{"r" + a, "r" + b, "r7", "f" + a, "f" + c, "f7", "f" + self}
+	k := 0
+	c07Seqs(alpha, g.Count(3, 4), func(seq []string) {
+		k++
+		g.Emit("coord1", []string{"ecdsa", "frost"}[k%2], self, itoa(1+k%2), hx([]byte(sid)), "0,1,2,3", joinOr(seq, ";"))
+	})
+	for i := 0; i < g.Count(100, 5000); i++ {
+		n := 2 + g.Intn(6)
+		ps := c07RandPeers(g, n)
+		rsid := c07RandSid(g)
+		me := c07Tok(c07Order(c07PeerList(joinOr(ps, ",")), c07Sid(rsid))[0])
+		evs := []string{}
+		for j, m := 0, g.Intn(9); j < m; j++ {
+			p := ps[g.Intn(n)]
+			if g.Intn(5) == 0 {
+				p = itoa(g.Intn(10))
+			}
+			if g.Intn(3) == 0 {
+				if p == me && g.Intn(4) != 0 {
+					continue
+				}
+				evs = append(evs, "f"+p)
+			} else {
+				evs = append(evs, "r"+p)
+			}
+		}
+		g.Emit("coord1", []string{"ecdsa", "frost"}[i%2], me, itoa(1+g.Intn(n-1)), rsid, joinOr(ps, ","), joinOr(evs, ";"))
+	}
 }
 
 // genC07Net: envelopes through the real receive path; a committee member (and an outsider) writes the coordinator's id
